@@ -85,8 +85,17 @@ Definition rename_spec (m : rmap) (d : dict) (k : nat) : option val :=
 Definition injective (m : rmap) : Prop := NoDup (news m) /\ NoDup (olds m).
 
 (* ---- hierarchies of solvers with probe leaves: which value each leaf receives ---- *)
+(* a leaf that reveals EVERYTHING it received: its transmission is a weighted sum over all keys of
+   its working dictionary (like UserWaveguide / TH_PhaseShifter, which hand all their parameters to
+   a user function) *)
+Definition spy_weight (k : nat) : val := (1 # (Pos.of_nat (2 ^ (k + 1))))%Q.
+Definition spy_value (d : dict) : val :=
+  fold_right (fun k acc => (match pget k d with Some v => spy_weight k * v | None => 0 end + acc)%Q)
+             0%Q (seq 0 8).
+
 Inductive ptree :=
 | PLeaf (pname : nat) (mdefault : val)
+| PSpy (sdefaults : dict)
 | PSol (children : list (rmap * ptree)) (sdefaults : dict) (adds : list addp) (sdefaults_after : dict).
 (* set_param calls before / after the add_param definitions *)
 
@@ -97,6 +106,7 @@ Variable fn : nat -> dict -> val.
 Fixpoint node_defaults (t : ptree) : dict :=
   match t with
   | PLeaf n d => [(n, d)]
+  | PSpy sd => sd
   | PSol children sdef adds sdef2 =>
       let base := (fix go (l : list (rmap * ptree)) (acc : dict) : dict :=
                      match l with
@@ -111,6 +121,7 @@ Fixpoint node_defaults (t : ptree) : dict :=
 Fixpoint deliver (t : ptree) (incoming : dict) : list (option val) :=
   match t with
   | PLeaf n d => [pget n (model_update [(n, d)] incoming)]
+  | PSpy sd => [Some (spy_value (model_update sd incoming))]
   | PSol children sdef adds sdef2 =>
       let pd := solver_update fn (node_defaults t) adds incoming in
       (fix go (l : list (rmap * ptree)) : list (option val) :=
@@ -120,3 +131,24 @@ Fixpoint deliver (t : ptree) (incoming : dict) : list (option val) :=
          end) children
   end.
 End Deliver.
+
+(* ---- the working copy of a model's parameters across solves (C06) ---- *)
+(* as found: the working dictionary is only ever updated, so a key given once survives *)
+Definition upd_asfound (ws defaults incoming : dict) : dict := pupdate (pupdate ws defaults) incoming.
+(* after the fix (known_findings F05): re-initialised from the defaults at every update *)
+Definition upd_fixed (ws defaults incoming : dict) : dict := pupdate defaults incoming.
+
+Definition run_updates (upd : dict -> dict -> dict -> dict) (defaults : dict) (ws : dict)
+           (history : list dict) : dict :=
+  fold_left (fun w inc => upd w defaults inc) history ws.
+
+(* navigation to a sub-solver by child indices *)
+Fixpoint subtree (t : ptree) (path : list nat) : option ptree :=
+  match path with
+  | [] => Some t
+  | i :: r => match t with
+              | PSol children _ _ _ => match nth_error children i with
+                                       | Some (_, c) => subtree c r | None => None end
+              | _ => None
+              end
+  end.
